@@ -1,4 +1,6 @@
 import RTV.Lemmas.WellFormed
+import RTV.Model.Assemble
+import RTV.Props.C10
 /-!
 # C11 — every resolved date-time value is well formed and agrees with its TIMEX
 
@@ -8,6 +10,17 @@ below say that what the resolution **assembly** of `BaseMergedParser` emits for 
 from `datetime` objects satisfies that predicate — for every valid date 0001..9999 and every time of day — so the
 predicate is not vacuous and a failure on the implementation is a failure of code these theorems do not cover
 (parsers that build value strings by concatenation, period parsers, CJK parsers, holidays: monitored only).
+
+The assembly itself (`set_parse_result` → `_date_time_resolution` → `_generate_from_resolution` → the two `__add_*`
+helpers) is modelled for EVERY slot kind, modifier string and flag in `RTV/Model/Assemble.lean` (`resolveSlot`,
+`slotTypeName`; unit correspondence `assemble` of `harness/corr/c11.py` on constructed slots).  About it:
+`type_name_agrees` (type name = type of every value, every slot), `definite_timex_value_date` / `_modifier` (a definite
+date handed over with its own TIMEX comes out equal to it, also behind before / after / since / until),
+`definite_value_mismatch_detected`, `definite_duration_value`, `period_invalid_end_filtered` (every modifier that is not
+before… / after… / since) and the NEGATIVE theorems `period_before_invalid_start_emitted`,
+`period_after_invalid_end_emitted`, `period_since_invalid_start_emitted`: behind a before / after / since modifier the
+`0001-01-01` marker of a non-existent date IS emitted (finding `sentinel:…`, replayed at pipeline level by
+`modifier_jobs`: `before February 30 to March 2` → `end: 0001-01-01`).
 -/
 namespace RTV.WF
 open RTV.Cal
@@ -57,20 +70,157 @@ theorem assembly_wellformed_date (timex : Str) (p f : Date) (hp : p.valid = true
   · simp [shapeOK, formatDate_ne_notResolved, parseDate_formatDate f hf]
   · simp [shapeOK]
 
-/-- C11 (definite TIMEX ⇒ value equals it): when the TIMEX of a date slot is `luis_date y m d` of a valid date, the
-value emitted for that same date is identical to the TIMEX. -/
-theorem definite_timex_value_date (x : Date) (h : x.valid = true) :
+/-- (helper) the predicate accepts a date value that is its own definite TIMEX -/
+theorem definiteOK_date_self (x : Date) (h : x.valid = true) :
     definiteOK ⟨sDate, formatDate x, some (formatDate x), none, none⟩ = true := by
   simp [definiteOK, formatDate_ne_notResolved, parseDate_formatDate x h]
+
+theorem formatDate_inj (x y : Date) (hx : x.valid = true) (hy : y.valid = true) (h : formatDate x = formatDate y) : x = y := by
+  have a := parseDate_formatDate x hx
+  rw [h, parseDate_formatDate y hy] at a
+  exact (Option.some.inj a).symm
+
+theorem formatDate_ne_nil (x : Date) : formatDate x ≠ [] := by simp [formatDate, pad4]
+
+theorem formatDate_not_min (x : Date) (h : x.valid = true) (hne : x ≠ ⟨1, 1, 1⟩) : startsWith (formatDate x) minValue = false := by
+  have hlen : (formatDate x).length = 10 := by simp [formatDate, pad4, pad2]
+  cases hc : startsWith (formatDate x) minValue with
+  | false => rfl
+  | true =>
+    exfalso
+    have ht : (formatDate x).take 10 = formatDate x := List.take_of_length_le (by omega)
+    have heq : formatDate x = minValue := by
+      simp only [startsWith, decide_eq_true_eq] at hc
+      simpa [minValue, ht] using hc
+    have h1 : minValue = formatDate ⟨1, 1, 1⟩ := by decide
+    exact hne (formatDate_inj x ⟨1, 1, 1⟩ h (by decide) (heq.trans h1))
+
+@[simp] theorem isPerm_self (l : List (Option Str)) : l.isPerm l = true := List.isPerm_iff.mpr (List.Perm.refl _)
+
+/-- `__add_single_date_time_to_resolution` on a non-empty value that is not the minimum date, per modifier -/
+theorem addSingleMod_cases (v : Str) (hn : v ≠ []) (hm : startsWith v minValue = false) :
+    addSingleMod [] (some v) = some { value := some (some v) } ∧
+    addSingleMod sBefore (some v) = some { stop := some (some v) } ∧
+    addSingleMod sUntil (some v) = some { stop := some (some v) } ∧
+    addSingleMod sAfter (some v) = some { start := some (some v) } ∧
+    addSingleMod sSince (some v) = some { start := some (some v) } := by
+  refine ⟨?_, ?_, ?_, ?_, ?_⟩ <;> simp (config := {decide := true}) [addSingleMod, hn, hm]
+
+/-- the slot a date parser hands over for a date `v` under the TIMEX of date `x` (past = future = `format_date v`) -/
+def dateSlot (x v : Date) (mod : Str) : ASlot :=
+  ⟨sDate, formatDate x, mod, ⟨some (formatDate v), none, none, none⟩, ⟨some (formatDate v), none, none, none⟩⟩
+
+/-- C11 (definite TIMEX ⇒ value equals it, ASSEMBLY): when a date slot carries the TIMEX `luis_date y m d` of a valid
+date and that same date as past and future value, `set_parse_result` emits exactly one value, it IS the TIMEX, the type
+name is `datetimeV2.date`, and the whole entity satisfies the property's predicate.  (The date 0001-01-01 is excluded:
+see `definite_min_date_not_resolved`.) -/
+theorem definite_timex_value_date (x : Date) (h : x.valid = true) (hne : x ≠ ⟨1, 1, 1⟩) :
+    resolveSlot (dateSlot x x []) false = some [⟨sDate, formatDate x, some (some (formatDate x)), none, none⟩] ∧
+    slotTypeName (dateSlot x x []) false = sPrefix ++ sDate ∧
+    wellFormed (slotTypeName (dateSlot x x []) false)
+      [(⟨sDate, formatDate x, some (some (formatDate x)), none, none⟩ : AValue).toValue] = true := by
+  have hm := formatDate_not_min x h hne
+  have hn := formatDate_ne_nil x
+  obtain ⟨c0, -, -, -, -⟩ := addSingleMod_cases (formatDate x) hn hm
+  refine ⟨?_, by simp [slotTypeName, dateSlot, determineType], ?_⟩
+  · simp [resolveSlot, dateSlot, generate, c0, determineType, Fields.isEmpty, Fields.values, isPerm_self]
+  · simp [wellFormed, typeNameOK, slotTypeName, dateSlot, determineType, AValue.toValue, shapeOK, definiteOK,
+      formatDate_ne_notResolved, parseDate_formatDate x h]
+
+/-- the quirk behind the exclusion: the minimum date itself, written out in full, is treated as "does not exist" -/
+theorem definite_min_date_not_resolved :
+    resolveSlot (dateSlot ⟨1, 1, 1⟩ ⟨1, 1, 1⟩ []) false = some [⟨sDate, formatDate ⟨1, 1, 1⟩, some (some sNotResolved), none, none⟩] := by
+  decide
+
+/-- C11 (definite TIMEX behind a modifier): with `before` / `until` the date is written as the `end`, with `after` /
+`since` as the `start` of a value of type `daterange` whose TIMEX is still the date's; the type name follows
+(`datetimeV2.daterange`), and the entity satisfies the predicate — whose `definiteOK` now DEMANDS that the written end
+is the TIMEX date. -/
+theorem definite_timex_value_modifier (x : Date) (h : x.valid = true) (hne : x ≠ ⟨1, 1, 1⟩) :
+    (∀ mod, mod = sBefore ∨ mod = sUntil →
+      resolveSlot (dateSlot x x mod) true = some [⟨sDateRange, formatDate x, none, none, some (some (formatDate x))⟩]) ∧
+    (∀ mod, mod = sAfter ∨ mod = sSince →
+      resolveSlot (dateSlot x x mod) true = some [⟨sDateRange, formatDate x, none, some (some (formatDate x)), none⟩]) ∧
+    wellFormed (slotTypeName (dateSlot x x sBefore) true)
+      [(⟨sDateRange, formatDate x, none, none, some (some (formatDate x))⟩ : AValue).toValue] = true ∧
+    wellFormed (slotTypeName (dateSlot x x sAfter) true)
+      [(⟨sDateRange, formatDate x, none, some (some (formatDate x)), none⟩ : AValue).toValue] = true := by
+  have hm := formatDate_not_min x h hne
+  have hn := formatDate_ne_nil x
+  have hp := parseDate_formatDate x h
+  obtain ⟨-, c1, c2, c3, c4⟩ := addSingleMod_cases (formatDate x) hn hm
+  have dt : determineType sDate true = sDateRange := by decide
+  refine ⟨?_, ?_, ?_, ?_⟩
+  · intro mod hmod
+    rcases hmod with rfl | rfl
+    · simp [resolveSlot, dateSlot, generate, c1, dt, Fields.isEmpty, Fields.values, isPerm_self]
+    · simp [resolveSlot, dateSlot, generate, c2, dt, Fields.isEmpty, Fields.values, isPerm_self]
+  · intro mod hmod
+    rcases hmod with rfl | rfl
+    · simp [resolveSlot, dateSlot, generate, c3, dt, Fields.isEmpty, Fields.values, isPerm_self]
+    · simp [resolveSlot, dateSlot, generate, c4, dt, Fields.isEmpty, Fields.values, isPerm_self]
+  · simp (config := {decide := true}) [wellFormed, typeNameOK, slotTypeName, dateSlot, determineType, AValue.toValue, shapeOK, definiteOK, hp, optOk,
+      sDate, sTime, sDateTime, sDuration, sDateRange]
+  · simp (config := {decide := true}) [wellFormed, typeNameOK, slotTypeName, dateSlot, determineType, AValue.toValue, shapeOK, definiteOK, hp, optOk,
+      sDate, sTime, sDateTime, sDuration, sDateRange]
+
+/-- … and the assembly repairs nothing: a date slot whose value is another valid date than the one its definite TIMEX
+names comes out with that other date, and the predicate rejects it (plain and behind a modifier). -/
+theorem definite_value_mismatch_detected (x v : Date) (hx : x.valid = true) (hv : v.valid = true) (hne : v ≠ ⟨1, 1, 1⟩)
+    (hd : v ≠ x) :
+    resolveSlot (dateSlot x v []) false = some [⟨sDate, formatDate x, some (some (formatDate v)), none, none⟩] ∧
+    definiteOK (⟨sDate, formatDate x, some (some (formatDate v)), none, none⟩ : AValue).toValue = false ∧
+    definiteOK (⟨sDateRange, formatDate x, none, none, some (some (formatDate v))⟩ : AValue).toValue = false := by
+  have hm := formatDate_not_min v hv hne
+  have hn := formatDate_ne_nil v
+  have hne' : formatDate v ≠ formatDate x := fun e => hd (formatDate_inj v x hv hx e)
+  obtain ⟨c0, -, -, -, -⟩ := addSingleMod_cases (formatDate v) hn hm
+  refine ⟨?_, ?_, ?_⟩
+  · simp [resolveSlot, dateSlot, generate, c0, determineType, Fields.isEmpty, Fields.values, isPerm_self]
+  · simp [AValue.toValue, definiteOK, formatDate_ne_notResolved, parseDate_formatDate x hx, hne']
+  · simp (config := {decide := true}) [AValue.toValue, definiteOK, parseDate_formatDate x hx, hne', optOk, sDateRange]
 
 /-- … and a value that differs from a definite TIMEX is rejected by the predicate (the predicate is not vacuous). -/
 example : definiteOK ⟨sDate, formatDate ⟨2019, 5, 5⟩, some (formatDate ⟨2019, 5, 6⟩), none, none⟩ = false := by decide
 
-/-- C11 (type name): the entity's type name and the `type` of its values are produced by the same function of the
-slot type and the modifier flags, so they agree. -/
-theorem type_name_agrees (dtype : Str) (hasMod : Bool) (timex : Str) (val : Option Str) :
-    typeNameOK (sPrefix ++ determineType dtype hasMod) [⟨determineType dtype hasMod, timex, val, none, none⟩] = true := by
-  simp [typeNameOK]
+/-- C11 (type name): for EVERY slot (any type string, TIMEX, modifier, past / future resolution) and flag, whenever
+`set_parse_result` does not raise, every value it emits carries the type `_determine_date_time_types` computed inside
+`_date_time_resolution`, and the entity's type name — computed by a second call after the values were built — is
+`datetimeV2.` + that type: `typeNameOK` holds. -/
+theorem type_name_agrees (slot : ASlot) (hasMod : Bool) (vs : List AValue) (h : resolveSlot slot hasMod = some vs) :
+    (∀ v ∈ vs, v.type = determineType slot.dtype hasMod) ∧
+    typeNameOK (slotTypeName slot hasMod) (vs.map AValue.toValue) = true := by
+  have key : ∀ v ∈ vs, v.type = determineType slot.dtype hasMod := by
+    unfold resolveSlot at h
+    split at h
+    · injection h with h
+      subst h
+      intro v hv
+      simp only [List.mem_append] at hv
+      rcases hv with hv | hv
+      · split at hv
+        · split at hv <;> simp_all
+        · simp only [List.mem_append] at hv
+          rcases hv with hv | hv <;> (split at hv <;> simp_all)
+      · split at hv <;> simp_all
+    · cases h
+  refine ⟨key, ?_⟩
+  simp only [typeNameOK, slotTypeName, List.all_map, List.all_eq_true]
+  intro v hv
+  simp [AValue.toValue, key v hv]
+
+/-- the table behind it: a before / after / since flag turns the three point types into their range types and leaves
+every other slot type alone; without a flag nothing changes. -/
+theorem type_name_table (t : Str) :
+    determineType sDate true = sDateRange ∧ determineType sTime true = sTimeRange ∧
+    determineType sDateTime true = sDateTimeRange ∧ determineType sDuration true = sDuration ∧
+    determineType sDateRange true = sDateRange ∧ determineType sTimeRange true = sTimeRange ∧
+    determineType sDateTimeRange true = sDateTimeRange ∧ determineType sSet true = sSet ∧
+    determineType t false = t := by
+  refine ⟨by decide, by decide, by decide, by decide, by decide, by decide, by decide, by decide, by simp [determineType]⟩
+
+/-- … and a mismatching type name is rejected (the predicate is not vacuous). -/
+example : typeNameOK (sPrefix ++ sDate) [⟨sDateRange, [], none, none, none⟩] = false := by decide
 
 /-- Witnesses that the predicate rejects what the property forbids: an invalid calendar date, an invalid time, a pure
 date range whose start is not before its end, a mismatching type name. -/
@@ -141,14 +291,176 @@ theorem period_wellformed_daterange (timex : Str) (a b : Date) (ha : a.valid = t
   · simp [periodValue, addPeriod, sSince, hne, ia, ib]
   · simp [shapeOK, sDateRange, sDate, sTime, sDateTime, sDuration, parseDate_formatDate a ha, parseDate_formatDate b hb, hlt]
 
-/-- C11 ("a non-existent date yields 'not resolved', never an invalid value"): a range slot one of whose ends starts
-with the invalid-date string contributes NO value — whichever end it is. -/
-theorem period_invalid_end_filtered (outType timex s₁ s₂ t : Str) (h₁ : s₁ ≠ []) :
-    periodValue outType timex [] (some s₁) (some (sInvalidDate ++ t)) = none ∧
-    periodValue outType timex [] (some (sInvalidDate ++ t)) (some s₁) = none := by
-  have hs : startsWith (sInvalidDate ++ t) sInvalidDate = true := by simp [startsWith, sInvalidDate, minValue]
-  have hn : sInvalidDate ++ t ≠ [] := by simp [sInvalidDate, minValue]
-  constructor <;> simp [periodValue, addPeriod, sSince, h₁, hn, hs]
+/-- the modifier strings behind which `__add_period_to_resolution` writes one end WITHOUT looking at it -/
+def openMod (mod : Str) : Bool :=
+  decide ((mod ≠ [] ∧ startsWith mod sBefore = true) ∨ (mod ≠ [] ∧ startsWith mod sAfter = true) ∨ mod = sSince)
+
+/-- C11 ("a non-existent date yields 'not resolved', never an invalid value"): for EVERY modifier string that is not
+`before…` / `after…` / `since` (none, `approx`, `until`, `start`, `end`, `less`, …) a range slot one of whose ends is
+missing, empty, or starts with the invalid-date string contributes NO value — whichever end it is, whatever the other
+end.  (Full statement — for every modifier — is false: `period_before_invalid_start_emitted` and the two theorems
+after it.) -/
+theorem period_invalid_end_filtered (outType timex mod : Str) (s e : Option Str) (hmod : openMod mod = false)
+    (hbad : s = none ∨ e = none ∨ s = some [] ∨ e = some [] ∨
+            (∃ t, s = some (sInvalidDate ++ t)) ∨ (∃ t, e = some (sInvalidDate ++ t))) :
+    periodValue outType timex mod s e = none := by
+  simp only [openMod, decide_eq_false_iff_not, not_or] at hmod
+  obtain ⟨h1, h2, h3⟩ := hmod
+  have hs : ∀ t, startsWith (sInvalidDate ++ t) sInvalidDate = true := by intro t; simp [startsWith, sInvalidDate, minValue]
+  have hnn : ∀ t, sInvalidDate ++ t ≠ [] := by intro t; simp [sInvalidDate, minValue]
+  unfold periodValue addPeriod
+  rw [if_neg h1, if_neg h2, if_neg h3]
+  rcases hbad with h | h | h | h | ⟨t, h⟩ | ⟨t, h⟩ <;> subst h
+  · simp
+  · cases s <;> simp
+  · cases e <;> simp
+  · cases s <;> simp
+  · cases e with
+    | none => simp
+    | some b => by_cases hb : b = [] <;> simp [hs, hb, hnn]
+  · cases s with
+    | none => simp
+    | some a => by_cases ha : a = [] <;> simp [hs, ha, hnn]
+
+/-- … hence a range slot without such a modifier BOTH of whose readings (past, future) have an invalid end resolves to
+the single value `'not resolved'`, type name included. -/
+theorem period_slot_not_resolved (dtype timex mod t₁ t₂ : Str) (a b : Option Str) (hmod : openMod mod = false)
+    (hd : dtype = sDateRange ∨ dtype = sTimeRange ∨ dtype = sDateTimeRange) :
+    resolveSlot ⟨dtype, timex, mod, ⟨none, some (sInvalidDate ++ t₁), a, none⟩, ⟨none, b, some (sInvalidDate ++ t₂), none⟩⟩ false =
+      some [⟨dtype, timex, some (some sNotResolved), none, none⟩] := by
+  have h1 := period_invalid_end_filtered dtype timex mod (some (sInvalidDate ++ t₁)) a hmod (Or.inr (Or.inr (Or.inr (Or.inr (Or.inl ⟨t₁, rfl⟩)))))
+  have h2 := period_invalid_end_filtered dtype timex mod b (some (sInvalidDate ++ t₂)) hmod (Or.inr (Or.inr (Or.inr (Or.inr (Or.inr ⟨t₂, rfl⟩)))))
+  have e1 : addPeriod mod (some (sInvalidDate ++ t₁)) a = (none, none) := by
+    unfold periodValue at h1
+    generalize addPeriod mod (some (sInvalidDate ++ t₁)) a = r at h1 ⊢
+    rcases r with ⟨_ | x, _ | y⟩ <;> simp_all
+  have e2 : addPeriod mod b (some (sInvalidDate ++ t₂)) = (none, none) := by
+    unfold periodValue at h2
+    generalize addPeriod mod b (some (sInvalidDate ++ t₂)) = r at h2 ⊢
+    rcases r with ⟨_ | x, _ | y⟩ <;> simp_all
+  have g : ∀ r, (r = (⟨none, some (sInvalidDate ++ t₁), a, none⟩ : Resolution) ∨ r = ⟨none, b, some (sInvalidDate ++ t₂), none⟩) →
+      generate dtype mod r = some {} := by
+    intro r hr
+    rcases hd with rfl | rfl | rfl <;> rcases hr with rfl | rfl <;>
+      simp (config := {decide := true}) [generate, e1, e2]
+  simp [resolveSlot, g, determineType, Fields.isEmpty, Fields.values]
+
+/-- NEGATIVE (finding `sentinel:…`): behind `before` the START of the range is written as `end` whatever it is — the
+`0001-01-01` marker of a date that does not exist is emitted, and unless the TIMEX itself names year 0001 the property's
+predicate `sentinelOK` rejects the value.  (`shapeOK` alone accepts it: 0001-01-01 is a valid calendar date.) -/
+theorem period_before_invalid_start_emitted (outType timex t : Str) (e : Option Str) :
+    periodValue outType timex sBefore (some (sInvalidDate ++ t)) e = some ⟨outType, timex, none, none, some (sInvalidDate ++ t)⟩ ∧
+    (hasSub timex [48, 48, 48, 49] = false → sentinelOK ⟨outType, timex, none, none, some (sInvalidDate ++ t)⟩ = false) := by
+  refine ⟨by simp (config := {decide := true}) [periodValue, addPeriod], ?_⟩
+  intro h
+  simp [sentinelOK, h, sInvalidDate, minValue, sYear1]
+
+/-- NEGATIVE: behind `after` the END of the range is written as `start` whatever it is. -/
+theorem period_after_invalid_end_emitted (outType timex t : Str) (s : Option Str) :
+    periodValue outType timex sAfter s (some (sInvalidDate ++ t)) = some ⟨outType, timex, none, some (sInvalidDate ++ t), none⟩ ∧
+    (hasSub timex [48, 48, 48, 49] = false → sentinelOK ⟨outType, timex, none, some (sInvalidDate ++ t), none⟩ = false) := by
+  refine ⟨by simp (config := {decide := true}) [periodValue, addPeriod], ?_⟩
+  intro h
+  simp [sentinelOK, h, sInvalidDate, minValue, sYear1]
+
+/-- NEGATIVE: behind `since` the START of the range is written as `start` whatever it is. -/
+theorem period_since_invalid_start_emitted (outType timex t : Str) (e : Option Str) :
+    periodValue outType timex sSince (some (sInvalidDate ++ t)) e = some ⟨outType, timex, none, some (sInvalidDate ++ t), none⟩ ∧
+    (hasSub timex [48, 48, 48, 49] = false → sentinelOK ⟨outType, timex, none, some (sInvalidDate ++ t), none⟩ = false) := by
+  refine ⟨by simp (config := {decide := true}) [periodValue, addPeriod], ?_⟩
+  intro h
+  simp [sentinelOK, h, sInvalidDate, minValue, sYear1]
+
+/-- the witness replayed on the implementation (`before February 30 to March 2`, harness `modifier_jobs`): the whole
+assembly emits `{type: daterange, timex: (XXXX-02-30,XXXX-03-02,PXD), end: 0001-01-01}` and the predicate rejects it;
+a missing start behind `before` is written as `end: None` (`by mid summer`). -/
+theorem before_nonexistent_start_witness :
+    let tx : Str := "(XXXX-02-30,XXXX-03-02,PXD)".toList.map Char.toNat
+    let mar2 : Str := "2019-03-02".toList.map Char.toNat
+    let slot : ASlot := ⟨sDateRange, tx, sBefore, ⟨none, some sInvalidDate, some mar2, none⟩, ⟨none, some sInvalidDate, some mar2, none⟩⟩
+    resolveSlot slot true = some [⟨sDateRange, tx, none, none, some (some sInvalidDate)⟩] ∧
+    sentinelOK (⟨sDateRange, tx, none, none, some (some sInvalidDate)⟩ : AValue).toValue = false ∧
+    resolveSlot ⟨sDateRange, [83, 85], sBefore, ⟨none, none, none, none⟩, ⟨none, none, none, none⟩⟩ true =
+      some [⟨sDateRange, [83, 85], none, none, some none⟩] ∧
+    shapeOK (⟨sDateRange, [83, 85], none, none, some none⟩ : AValue).toValue = false := by
+  decide
+
+/-! ### durations -/
+
+theorem isNumber_natStr (k : Nat) : isNumber (natStr k) = true := by
+  have hs := span_all_digits (natStr k) (natStr_all k)
+  have hne : natStr k ≠ [] := (natDigits_spec (k + 1) k (by omega)).2.1
+  simp [isNumber, hs, hne]
+
+theorem natStr_ne_notResolved (k : Nat) : natStr k ≠ sNotResolved := by
+  intro h
+  have := natStr_digits k 110 (by rw [h]; decide)
+  simp [isDigit] at this
+
+theorem durationSeconds_pt (n k u : Nat)
+    (hu : (if u = 72 then some 3600 else if u = 77 then some 60 else if u = 83 then some 1 else none) = some k)
+    (hud : isDigit u = false) (hu46 : u ≠ 46) :
+    durationSeconds ([80, 84] ++ natStr n ++ [u]) = some (n * k, 1) := by
+  have hc := ptSeconds_component ((natStr n ++ [u]).length + 3) n k u [] 0 hu hud hu46 (ptSeconds_nil _)
+  have hne : natStr n ++ [u] ≠ [] := by simp
+  simp only [List.cons_append, List.nil_append, durationSeconds, hne, if_false]
+  simpa using hc
+
+theorem durationSeconds_day_week (n : Nat) :
+    durationSeconds (durationTimex n [68]) = some (n * 86400, 1) ∧ durationSeconds (durationTimex n [87]) = some (n * 604800, 1) := by
+  obtain ⟨-, -, -, hD, hW, -, -⟩ := duration_timex_reads_back n
+  have hne : natStr n ≠ [] := (natDigits_spec (n + 1) n (by omega)).2.1
+  obtain ⟨a, t, hs⟩ := List.exists_cons_of_ne_nil hne
+  have ha : a ≠ 84 := by
+    have := natStr_digits n a (by simp [hs]); simp [isDigit] at this; omega
+  constructor
+  · have e : durationTimex n [68] = 80 :: a :: (t ++ [68]) := by simp [durationTimex, hs]
+    rw [e] at hD ⊢
+    unfold durationSeconds
+    split
+    · rename_i h; simp at h; exact absurd h.1 ha
+    · simp [hD]
+  · have e : durationTimex n [87] = 80 :: a :: (t ++ [87]) := by simp [durationTimex, hs]
+    rw [e] at hW ⊢
+    unfold durationSeconds
+    split
+    · rename_i h; simp at h; exact absurd h.1 ha
+    · simp [hW]
+
+/-- a duration value `str(k)` under a TIMEX that denotes `k` seconds satisfies the whole predicate -/
+theorem duration_value_ok (timex : Str) (k : Nat) (h : durationSeconds timex = some (k, 1)) :
+    wellFormed (sPrefix ++ sDuration) [⟨sDuration, timex, some (natStr k), none, none⟩] = true := by
+  have e : (sDuration = sDate) = False := by decide
+  have e2 : (sDuration = sTime) = False := by decide
+  have e3 : (sDuration = sDateTime) = False := by decide
+  simp [wellFormed, typeNameOK, shapeOK, definiteOK, natStr_ne_notResolved, e, e2, e3, isNumber_natStr, h, amount_natStr]
+
+/-- C11 (definite TIMEX ⇒ value equals it, durations): for every `N` and each unit with a fixed length, the TIMEX
+`P[T]N<U>` the duration parser writes and the value `N × seconds(U)` it writes next to it satisfy the predicate (a number
+of seconds, equal to the seconds the TIMEX denotes). -/
+theorem definite_duration_value (n : Nat) :
+    wellFormed (sPrefix ++ sDuration) [⟨sDuration, durationTimex n [83], some (natStr (n * 1)), none, none⟩] = true ∧
+    wellFormed (sPrefix ++ sDuration) [⟨sDuration, durationTimex n [77], some (natStr (n * 60)), none, none⟩] = true ∧
+    wellFormed (sPrefix ++ sDuration) [⟨sDuration, durationTimex n [72], some (natStr (n * 3600)), none, none⟩] = true ∧
+    wellFormed (sPrefix ++ sDuration) [⟨sDuration, durationTimex n [68], some (natStr (n * 86400)), none, none⟩] = true ∧
+    wellFormed (sPrefix ++ sDuration) [⟨sDuration, durationTimex n [87], some (natStr (n * 604800)), none, none⟩] = true := by
+  have hS : durationTimex n [83] = [80, 84] ++ natStr n ++ [83] := by simp [durationTimex]
+  have hM : durationTimex n [77] = [80, 84] ++ natStr n ++ [77] := by simp [durationTimex]
+  have hH : durationTimex n [72] = [80, 84] ++ natStr n ++ [72] := by simp [durationTimex]
+  obtain ⟨hD, hW⟩ := durationSeconds_day_week n
+  refine ⟨?_, ?_, ?_, duration_value_ok _ _ hD, duration_value_ok _ _ hW⟩
+  · exact duration_value_ok _ _ (hS ▸ durationSeconds_pt n 1 83 (by decide) (by decide) (by decide))
+  · exact duration_value_ok _ _ (hM ▸ durationSeconds_pt n 60 77 (by decide) (by decide) (by decide))
+  · exact duration_value_ok _ _ (hH ▸ durationSeconds_pt n 3600 72 (by decide) (by decide) (by decide))
+
+/-- … and the predicate is not vacuous on durations: another number of seconds, a signed number, a word are rejected
+(audit: `{duration, PT1H, '7200'}` used to pass; `-3 days` → `P-3D` / `-259200` is finding `shape:…`). -/
+example : definiteOK ⟨sDuration, "PT1H".toList.map Char.toNat, some ("7200".toList.map Char.toNat), none, none⟩ = false := by decide
+example : definiteOK ⟨sDuration, "PT1.5H".toList.map Char.toNat, some ("5400".toList.map Char.toNat), none, none⟩ = true := by decide
+example : definiteOK ⟨sDuration, "PT1H30M".toList.map Char.toNat, some ("5400".toList.map Char.toNat), none, none⟩ = true := by decide
+example : definiteOK ⟨sDuration, "P2W".toList.map Char.toNat, some ("1209600.5".toList.map Char.toNat), none, none⟩ = false := by decide
+example : shapeOK ⟨sDuration, "P-3D".toList.map Char.toNat, some ("-259200".toList.map Char.toNat), none, none⟩ = false := by decide
+example : shapeOK ⟨sDuration, "P3D".toList.map Char.toNat, some ("259200".toList.map Char.toNat), none, none⟩ = true := by decide
 
 /-- C11 (open ranges): with a `before` / `after` / `since` modifier exactly one end is written. -/
 theorem period_modifier_one_end (s e : Option Str) :
